@@ -1,0 +1,14 @@
+//go:build verif
+
+// Verification hook (build tag "verif"): exports a way to inject the CLI backend
+// (IO, HTTPS getter, quote provider, clock) from outside the package. Without the
+// tag this file is not compiled and nothing changes.
+
+package cmd
+
+import "context"
+
+// VerifWithBackend returns a context carrying b as the CLI backend for MakeRoot.
+func VerifWithBackend(ctx context.Context, b *Backend) context.Context {
+	return context.WithValue(ctx, backendKey, b)
+}
